@@ -586,6 +586,24 @@ class World(object):
         s.remap_host = host
         return rp
 
+    def _op_s_silent_reattach(self, a, b, c):
+        """Extra op (not in DEFAULT_WEIGHTS; C07 opts in): a controller re-attaches a stream that is already on a
+        circuit (ATTACHSTREAM in CONNECT_WAIT).  handle_control_attachstream() detaches it *silently*
+        (circuit_detach_stream, no DETACHED event) and puts it back to CONTROLLER_WAIT; the next thing the client
+        hears about it names circuit 0 - here the REMAP (SOURCE=CACHE) of connection_ap_handshake_rewrite() - and
+        then SENTCONNECT on the new circuit (a later s_sent / s_progress step)."""
+        s = self._pick(self._stream_list(lambda x: x.kind == "connect" and x.phase == "sent" and not x.doomed), a)
+        if s is None:
+            return None
+        s.circ = None
+        s.phase = "detached"
+        host = REMAP_HOSTS[b % len(REMAP_HOSTS)]
+        port = s.target.rpartition(":")[2]
+        s.target = "%s:%s" % (host, port)
+        rp = self._stream_report(s, "REMAP", [("SOURCE", "CACHE")])
+        s.remap_host = host
+        return rp
+
     def _op_s_sent(self, a, b, c):
         s = self._pick(self._stream_list(lambda x: x.phase in ("new", "detached") and not x.doomed), a)
         circs = self._circ_list(lambda x: x.phase == "built")
